@@ -218,4 +218,30 @@ def r_C01visitors(root):
             r2 = call("visit_assignment", v, node, ["r", "=", arhs(v, ("obj_ref", link2))])
             got = (cls["._tx_attrs"]["r"].get(".cls") or {}).get(".cls_name"); want = "Target" if second == "Target" else "OBJECT"
             rep("C01.i", "visit_assignment", "r=[Target|FQN] ... r=[%s|FQN]" % second, r2[0] == "ret" and got == want, "a reference attribute assigned twice, to [Target|FQN] and to [%s|FQN], gets the target type %r; documented %r (the same target keeps its type, different targets give OBJECT - the match rule FQN is not the type)" % (second, got, want), props_=("C01", "C07", "C10", "C25"))
+    # ---------------------------------------------------------------- rule names: classes are created / user classes bound
+    class _NodeS(HS):
+        def __str__(s_): return s_[".value"]
+    RM = consts.get("RULE_MATCH")
+    def rule_name_case(user_classes, provider, used=()):
+        ev = []
+        generic = HS({".kind": "cls", ".__name__": "generic class"})
+        mmr = HS({".kind": "metamodel", ".user_classes": dict(user_classes), ".user_classes_provider": provider, "._used_rule_names_for_user_classes": set(used), ".rootcls": None, ".debug": False,
+                  "._init_class": pyeval.PyFn(lambda *a_, **k_: ev.append(("init", a_, k_))), "._new_class": pyeval.PyFn(lambda *a_, **k_: (ev.append(("new", a_, k_)), generic)[1])})
+        vr_ = HS({".kind": "visitor", ".debug": False, ".metamodel": mmr, "._current_cls": None, ".dprint": pyeval.PyFn(lambda *a: None)})
+        r = call("visit_rule_name", vr_, _NodeS({".kind": "node", ".value": "Thing", ".position": 11, ".position_end": 16}), [])
+        return r, ev, mmr, vr_, generic
+    UC = pyeval.ClassObj("Thing", {"__name__": "Thing"})
+    def kind_ok(k_): return "rule_type" not in k_ or k_["rule_type"] == RM
+    for what, ucs, prov in (("a user class given in classes=[...]", {"Thing": UC}, None), ("a user class handed out by a provider callable", {}, pyeval.PyFn(lambda n_: UC if n_ == "Thing" else None))):
+        r, ev, mmr, vr_, generic = rule_name_case(ucs, prov)
+        inits = [e_ for e_ in ev if e_[0] == "init"]
+        okr = r == ("ret", "Thing") and len(inits) == 1 and not [e_ for e_ in ev if e_[0] == "new"] and inits[0][1][:1] == (UC,) and (list(inits[0][1][1:]) + [inits[0][2].get("peg_rule"), inits[0][2].get("position")])[:2] in ([None, 11],) and inits[0][2].get("external_attributes") is True and kind_ok(inits[0][2]) and len(inits[0][1]) <= 3 \
+              and vr_["._current_cls"] is UC and mmr[".rootcls"] is UC and "Thing" in mmr["._used_rule_names_for_user_classes"] and mmr[".user_classes"].get("Thing") is UC
+        rep("C03.o", "visit_rule_name", what, okr, "for the rule Thing with %s visit_rule_name %s after %s; documented: the user class is initialised as the class of the rule (no PEG rule yet, the rule's position, external attributes) and - like every class - starts as a match rule: its kind is inferred from the rule body (a rule without assignments that only refers to matches stays a match rule and yields plain values); it becomes the current and, if first, the root class and is recorded as used" % (what, desc(r), [(e_[0], [x_ if not isinstance(x_, pyeval.ClassObj) else x_.name for x_ in e_[1]], e_[2]) for e_ in ev]), props_=("C03", "C14"))
+    r, ev, mmr, vr_, generic = rule_name_case({}, None)
+    news = [e_ for e_ in ev if e_[0] == "new"]
+    okr = r == ("ret", "Thing") and len(news) == 1 and not [e_ for e_ in ev if e_[0] == "init"] and news[0][1][:1] == ("Thing",) and kind_ok(news[0][2]) and len(news[0][1]) <= 3 and vr_["._current_cls"] is generic and mmr[".rootcls"] is generic
+    rep("C03.o", "visit_rule_name", "no user class", okr, "for the rule Thing without a user class visit_rule_name %s after %s; documented: one new class named Thing (a match rule until its body says otherwise) that becomes the current and, if first, the root class" % (desc(r), [(e_[0], list(e_[1]), e_[2]) for e_ in ev]), props_=("C03", "C14"))
+    r, ev, mmr, vr_, generic = rule_name_case({"Thing": UC}, None, used=("Thing",))
+    rep("C03.o", "visit_rule_name", "a user class for a rule name that was bound before", r == ("raise", "TextXSemanticError") and not ev, "a second rule named Thing (an imported rule redefined) with a user class %s; documented TextXSemanticError before any class is touched" % desc(r), props_=("C03", "C14", "C25"))
     return inst, out
